@@ -89,7 +89,11 @@ def _attach(f, l, p, with_len=True):
         elif l[0] == "LDataLen":
             f.get_len = lambda _v, data, thr=l[1], a=l[2], b=l[3]: a if len(data) > thr else b
     if p[0] == "PTab":
-        f.get_pres = lambda v, T=dict((k, bool(b)) for k, b in p[2]), k=pyname(p[1]): T[v[k]]
+        # the codec treats a field as absent iff its presence callback returns the object False (`is False`): every other result,
+        # including falsy ones such as 0 or None, means present.  Callbacks written by users return such values (`v['flags'] & 1`),
+        # so "present" is realised by different non-False objects, chosen by the key field's name (stable per definition)
+        yes = (True, 1, 0, None, "")[sum(map(ord, pyname(p[1]))) % 5]
+        f.get_pres = lambda v, T=dict((k, (yes if b else False)) for k, b in p[2]), k=pyname(p[1]): T[v[k]]
     return f
 
 
